@@ -9,6 +9,8 @@ def run(ctx):
     eq_function(ctx)
     from ..scen_kernels2 import kernels2
     kernels2(ctx, names=['=', '!='])
+    from ..scen_go import go_chain
+    go_chain(ctx, want=('go.chain',))       # exactly one Uniquness stage, behind the selections (rows are compared on their selected values)
     ctx.run.bounds['hash_eq'] = 'numbers in parser normal form with |n| < 2^53 (Negative(i) => i < 0: the `-0` exclusion of the property), booleans, null, one-byte ASCII strings'
     specs = [('k_hash_agrees_with_eq_numbers', 'hash-eq-numbers', 'a == b => equal hash transcripts, over all 9 number variant pairs'),
              ('k_scalar_rank_and_eq_hash', 'hash-eq-scalars', 'a == b => equal hash transcripts and cmp==Equal <=> ==, over all scalar type pairs'),
